@@ -470,9 +470,10 @@ var configs = map[string]config{
 		Root: map[string]string{"main.tf": "variable \"t1\" {\n  type = tuple()\n}\n\nvariable \"t2\" {\n  type = tuple()\n}\n\nvariable \"o1\" {\n  type = object()\n}\n\nvariable \"l1\" {\n  type = list()\n}\n\nvariable \"m1\" {\n  type = map(tuple())\n}\n\nvariable \"ok\" {\n  type = object({ a = string, b = optional(number), c = tuple([string, bool]) })\n}\n"},
 	},
 	// object keys in unusual literal spellings (parenthesised, conditional with a
-	// null result, escapes, keywords) in schema-known and unknown places
+	// null result, escapes, keywords) in schema-known and unknown places; a keyword
+	// constraint met by a longer traversal whose root name is the keyword
 	"tf-oddkeys": {
-		Root: map[string]string{"main.tf": "locals {\n  odd = {\n    (\"pk\") = 1\n    (true ? null : \"nk\") = 2\n    (false ? \"fk\" : null) = 3\n    \"e\\\"k\" = 4\n    true = 5\n    null = 6\n    plain = { (\"in\") = [1, { (true ? null : \"x\") = 2 }] }\n  }\n}\n\nresource \"aws_instance\" \"k\" {\n  ami           = \"a\"\n  instance_type = \"t\"\n  tags = {\n    (\"Name\") = \"n\"\n    (true ? null : \"Env\") = \"e\"\n    \"a\\\"b\" = \"q\"\n    (local.missing) = \"m\"\n    (nope()) = \"f\"\n    plain = \"p\"\n  }\n  cpu = {\n    (\"cores\") = 2\n    \"thr\\u0065ads\" = 4\n  }\n}\n"},
+		Root: map[string]string{"main.tf": "locals {\n  odd = {\n    (\"pk\") = 1\n    (true ? null : \"nk\") = 2\n    (false ? \"fk\" : null) = 3\n    \"e\\\"k\" = 4\n    true = 5\n    null = 6\n    plain = { (\"in\") = [1, { (true ? null : \"x\") = 2 }] }\n  }\n}\n\nresource \"aws_instance\" \"k\" {\n  ami           = \"a\"\n  instance_type = \"t\"\n  tags = {\n    (\"Name\") = \"n\"\n    (true ? null : \"Env\") = \"e\"\n    \"a\\\"b\" = \"q\"\n    (local.missing) = \"m\"\n    (nope()) = \"f\"\n    plain = \"p\"\n  }\n  cpu = {\n    (\"cores\") = 2\n    \"thr\\u0065ads\" = 4\n  }\n  lifecycle {\n    ignore_changes = all.items\n  }\n}\n\nresource \"aws_instance\" \"k2\" {\n  ami           = \"a\"\n  instance_type = \"t\"\n  lifecycle {\n    ignore_changes = all[0]\n  }\n}\n"},
 	},
 	"tf-child-only": {
 		Root:  map[string]string{"main.tf": "module \"kid\" {\n  source = \"./child\"\n  name   = \"n\"\n}\n\noutput \"g\" {\n  value = module.kid.greeting\n}\n"},
